@@ -215,7 +215,7 @@ Qed.
 Lemma Pw_qr_main : forall o l endp st, nodes_ok l -> Pw st -> Pw (snd (qr_main o l endp st)).
 Proof.
   intros o l endp st Hl H. unfold qr_main.
-  destruct (if convert_host o then host_late_scan l endp false None else None) as [[rest wp]|];
+  destruct (if convert_host o then host_late_scan l endp O None else None) as [[rest wp]|];
     [cbn [snd]; auto with pw | apply Pw_qr_loop; [exact Hl | exact H]].
 Qed.
 
@@ -410,7 +410,7 @@ Qed.
 Lemma qr_main_rest_ok : forall o l endp st, nodes_ok l -> nodes_ok (fst (qr_main o l endp st)).
 Proof.
   intros o l endp st Hl. unfold qr_main.
-  destruct (if convert_host o then host_late_scan l endp false None else None) as [[rest wp]|] eqn:E;
+  destruct (if convert_host o then host_late_scan l endp O None else None) as [[rest wp]|] eqn:E;
     [|apply qr_loop_rest_ok; exact Hl].
   cbn [fst]. destruct (convert_host o); [|discriminate]. eapply host_late_scan_rest_ok; eassumption.
 Qed.
